@@ -690,3 +690,4 @@ PROPS["C18"]["rule"] += " Ill-typed parent lists include JSON text whose element
 PROPS["C18"]["rule"] += " Some js requests give their code as an array of lines (one of which ends in a // comment)."
 PROPS["C02"]["rule"] += " One fact in twenty has an object under \"rule\" (a rule body, well-formed or not): whatever is decided when it is added must hold for the location loaded from storage, too."
 PROPS["C17"]["rule"] += " In the concurrent-create part a checked request that is over before the first CreateLocation has begun must have failed."
+PROPS["C15"]["rule"] += " The crolt-glue histories also write rules with schedules that crolt refuses ('tomorrow', an expression without an occurrence to come): the add fails and nothing changes - a rule of that id that was there keeps its job."
